@@ -217,9 +217,13 @@ func compile0(expr ast.Expr, env1 *val.Env, dbg bool) compiler.Closure {
 	case *ast.MemberExpr:
 		// 也可以 desugar 成 build-in-fun
 		obj := compile(e.Obj, env1, dbg)
-		idx := e.Index
+		// look the field up in the value's own type: an equal object type may
+		// list its fields in another order than the static one
+		name := e.Field.Name
 		return func(env *val.Env) *val.Val {
-			return obj(env).Obj().V[idx]
+			v, ok := obj(env).Obj().Get(name)
+			util.Assert(ok, "undefined field %s", name)
+			return v
 		}
 
 	//case *ast.IfExpr:
